@@ -210,6 +210,15 @@ pub fn admin_churn(sim: &mut crate::vsim::VSim, admin: u8) -> Option<String> {
     match admin {
         1 => {
             let _ = sim.exec(OWNER, ExecuteMsg::SetOpen { open: false });
+            // the curve and the reported net position are what they were also *while* the market is closed
+            let mid = sim.state();
+            if (st0.quote_asset_reserve, st0.base_asset_reserve, st0.total_position_size) != (mid.quote_asset_reserve, mid.base_asset_reserve, mid.total_position_size) {
+                let _ = sim.exec(OWNER, ExecuteMsg::SetOpen { open: true });
+                return Some(format!(
+                    "closing the market changed the reported curve state: reserves ({}, {}) net {} -> ({}, {}) net {}",
+                    st0.quote_asset_reserve, st0.base_asset_reserve, st0.total_position_size, mid.quote_asset_reserve, mid.base_asset_reserve, mid.total_position_size
+                ));
+            }
             let _ = sim.exec(OWNER, ExecuteMsg::SetOpen { open: true });
         }
         2 => {
